@@ -621,29 +621,30 @@ Proof. intro H. destruct (vis_decr me s p H) as [hi Hd]. eapply decr_NoDup; eaut
 Fixpoint hist_bytes (ops : list op) : Z :=
   match ops with
   | [] => 0
-  | OAdd e :: r => e_len e + 1 + hist_bytes r
+  | OAdd e :: r | OAddAsync e :: r => e_len e + 1 + hist_bytes r
   | _ :: r => hist_bytes r
   end.
 
 Lemma Forall_flat_step (P : entry -> Prop) s o :
-  Forall P (flat s) -> (forall e, o = OAdd e -> P e) -> Forall P (flat (step s o)).
+  Forall P (flat s) -> (forall e, o = OAdd e \/ o = OAddAsync e -> P e) -> Forall P (flat (step s o)).
 Proof.
   intros H He. destruct (flat_step s o) as (a & x & b & E1 & E2). rewrite E2.
   assert (H' : Forall P (flat s ++ extra s o)).
-  { apply Forall_app; split; auto. destruct o; cbn [extra]; auto. destruct (enabled (cfg s)); auto. }
+  { apply Forall_app; split; auto. destruct o; cbn [extra]; auto; destruct (enabled (cfg s)); auto. }
   rewrite E1 in H'. apply Forall_app in H' as [? H']. apply Forall_app in H' as [? ?]. apply Forall_app; auto.
 Qed.
 
 Lemma fsize_flat_step me s o :
-  Forall (len_ok me) (flat s) -> (forall e, o = OAdd e -> len_ok me e) ->
-  fsize (qf (flat (step s o))) <= fsize (qf (flat s)) + match o with OAdd e => e_len e + 1 | _ => 0 end.
+  Forall (len_ok me) (flat s) -> (forall e, o = OAdd e \/ o = OAddAsync e -> len_ok me e) ->
+  fsize (qf (flat (step s o))) <= fsize (qf (flat s)) + match o with OAdd e | OAddAsync e => e_len e + 1 | _ => 0 end.
 Proof.
   intros H He. destruct (flat_step s o) as (a & x & b & E1 & E2). rewrite E2.
   assert (H' : Forall (len_ok me) (flat s ++ extra s o)).
-  { apply Forall_app; split; auto. destruct o; cbn [extra]; auto. destruct (enabled (cfg s)); auto. }
-  assert (Hx : fsize (qf (flat s ++ extra s o)) <= fsize (qf (flat s)) + match o with OAdd e => e_len e + 1 | _ => 0 end).
-  { rewrite qf_app, fsize_app. destruct o as [e| | | | |]; cbn [extra qf map fsize]; try lia.
-    specialize (He e eq_refl). unfold len_ok in He. destruct (enabled (cfg s)); cbn [qf map fsize]; lia. }
+  { apply Forall_app; split; auto. destruct o; cbn [extra]; auto; destruct (enabled (cfg s)); auto. }
+  assert (Hx : fsize (qf (flat s ++ extra s o)) <= fsize (qf (flat s)) + match o with OAdd e | OAddAsync e => e_len e + 1 | _ => 0 end).
+  { rewrite qf_app, fsize_app. destruct o as [e|e| | | | |]; cbn [extra qf map fsize]; try lia.
+    - specialize (He e (or_introl eq_refl)). unfold len_ok in He. destruct (enabled (cfg s)); cbn [qf map fsize]; lia.
+    - specialize (He e (or_intror eq_refl)). unfold len_ok in He. destruct (enabled (cfg s)); cbn [qf map fsize]; lia. }
   rewrite E1 in H', Hx. rewrite !qf_app, !fsize_app in *.
   apply Forall_app in H' as [_ H']. apply Forall_app in H' as [Hxx _].
   pose proof (fsize_qf_nonneg _ _ Hxx). lia.
@@ -657,9 +658,11 @@ Proof.
   { intros s0 H. unfold flush. destruct (buf s0) as [|b0 b] eqn:E; auto.
     unfold files_of in *. cbn [rot cur]. apply Forall_app in H as [Hr Hc]. apply Forall_app; split; auto.
     constructor; auto. destruct (cur s0); [destruct l|]; discriminate. }
-  intro H. destruct o as [e| | | |en ign cl|c]; cbn [step]; auto.
-  - unfold add. destruct (negb (enabled (cfg s))); auto.
-    match goal with |- context [if ?c then _ else _] => destruct c end; [apply Hfl|]; exact H.
+  intro H.
+  assert (Has : forall e, Forall (fun f : list entry => f <> []) (files_of (add_async s e))).
+  { intros e. unfold add_async. destruct (negb (enabled (cfg s))); [exact H|]. exact H. }
+  destruct o as [e|e| | | |en ign cl|c]; cbn [step]; auto.
+  - unfold add. destruct (negb (pending s) && pending (add_async s e)); auto.
   - unfold rotate. destruct (cur s) as [c|] eqn:E; auto.
     unfold files_of in *. cbn [rot cur]. rewrite E in H. apply Forall_app in H as [_ Hc].
     rewrite app_nil_r. exact Hc.
@@ -679,12 +682,15 @@ Proof.
   - cbn [hist_bytes] in Hsz. destruct Hinv as [Hwf _]. repeat split; auto; try apply Hwf. lia.
   - pose proof Hinv as [[_ Hlen] _].
     assert (Hstep : exists hi', inv me (step s o) hi' /\ 0 <= hi' /\ hist_ok me hi' ops /\
-              (forall e, o = OAdd e -> 0 < e_time e /\ len_ok me e)).
-    { destruct o as [e| | | | |]; cbn [hist_ok] in Hok;
-        try (exists hi; split; [eapply (inv_step me s _ hi hi); eauto|]; split; auto; split; auto; intros; discriminate).
-      destruct Hok as (H1 & H2 & H3). exists (e_time e).
-      split; [eapply (inv_step me s (OAdd e) hi (e_time e)); eauto|]. split; [lia|]. split; auto.
-      intros e' E. injection E as <-. split; auto. lia. }
+              (forall e, o = OAdd e \/ o = OAddAsync e -> 0 < e_time e /\ len_ok me e)).
+    { destruct o as [e|e| | | | |]; cbn [hist_ok] in Hok;
+        try (exists hi; split; [eapply (inv_step me s _ hi hi); eauto|]; split; auto; split; auto;
+             intros ? [?|?]; discriminate);
+        destruct Hok as (H1 & H2 & H3); exists (e_time e).
+      - split; [eapply (inv_step me s (OAdd e) hi (e_time e)); eauto|]. split; [lia|]. split; auto.
+        intros e' [E|E]; [|discriminate]. injection E as <-. split; auto. lia.
+      - split; [eapply (inv_step me s (OAddAsync e) hi (e_time e)); eauto|]. split; [lia|]. split; auto.
+        intros e' [E|E]; [discriminate|]. injection E as <-. split; auto. lia. }
     destruct Hstep as (hi' & Hinv' & Hhi' & Hok' & He).
     apply (IH (step s o) hi'); auto.
     + apply Forall_flat_step; auto. intros e E. apply He; auto.
